@@ -888,6 +888,10 @@ def _process_step_result_tick(
                         )
                     )
         elif isinstance(result, AddCollectedEvent):
+            if not step_no_longer_in_progress:
+                # already scheduled to run again with a refreshed snapshot; the
+                # re-run will produce its remaining collect results again
+                continue
             # The current state of collected events.
             collected_events = state.workers[
                 tick.step_name
